@@ -26,7 +26,7 @@ claimed.update({
    text="Shadow execution: every step of a live history (aliased receiver/operands, receiver carrying whatever buffer, stale words, value, sign and accuracy the history left, scratch pool handing out stale/garbage/poisoned buffers) is repeated on fresh, completely de-aliased memory with a clean pool; both must agree on value, sign, precision, mode, accuracy, return values and panics.",
    note=TRUST, tech="deterministic simulation of API histories with simulated sync.Pool faults; differential shadow execution on fresh memory as oracle"),
  "C19": dict(cat="exploration", ref="DESIGN.md §4 C19",
-   text="The Context latch as a state machine under faults: NaN-producing operand classes and NewFloat64(NaN) at drawn positions, foreign panics (error value, string, real runtime.Error) injected at a drawn statement inside a context call, several faults per history; checked step by step against an executable model (pending error, no-op while latched, Err() returns the first error once and re-arms, foreign panics escape and do not latch, otherwise result == bare operation on a fresh receiver carrying the context's precision and mode).",
+   text="The Context latch as a state machine under faults: NaN-producing operand classes and NewFloat64(NaN) at drawn positions, foreign panics (error value, string, real runtime.Error) injected at a drawn statement inside a context call, several faults per history; checked step by step against an executable model (pending error, no-op while latched, Err() returns the first error once and re-arms, foreign panics escape and do not latch, otherwise result == bare operation on a fresh receiver carrying the context's precision and mode, and == the exact result rounded once by an independent big-integer reference for Add Sub Mul Quo FMA Sqrt Set Neg Abs; whether an operation is invalid is decided by the IEEE operand-class model, not by the library).",
    note=TRUST, tech="deterministic simulation with fault injection: failpoint at every statement (injected panics), NaN faults; executable reference model of the context latch"),
 })
 
